@@ -33,6 +33,12 @@ pub fn long_input(len: usize, seed: u64) -> Vec<u8> {
     v
 }
 
+/// record lengths at and around the round numbers a size threshold would be written as
+pub const THRESHOLD_LENGTHS: [usize; 24] = [
+    99, 100, 101, 999, 1000, 1001, 4095, 4096, 4097, 4999, 5000, 5001, 9_999, 10_000, 10_001, 65_535, 65_536, 65_537, 99_999, 100_000, 100_001, 999_999,
+    1_000_000, 1_000_001,
+];
+
 /// one input with uninterrupted clean runs longer than 2^8, 2^16 and 2^17 bases (the widths a run-length or
 /// position counter could plausibly be narrowed to), separated by single ambiguous bytes
 pub fn clean_run_input() -> Vec<u8> {
@@ -359,6 +365,39 @@ pub fn c01(ctx: &mut Ctx) {
     let mut n_long = 0u64;
     let mut longs: Vec<Vec<u8>> = [(4097usize, 1u64), (8193, 2), (20_000, 3), (70_000, 4)].iter().map(|&(len, seed)| long_input(len, seed)).collect();
     longs.push(clean_run_input());
+    // runs of ambiguous bytes of every length around the block sizes a routine might scan by (8, 16, 32, 64, 128),
+    // starting at every alignment within such a block, between clean stretches
+    for gap in [1usize, 7, 8, 9, 15, 16, 17, 31, 32, 33, 63, 64, 65, 127, 128, 129, 191, 192, 193, 255, 256, 257, 300] {
+        for offset in [0usize, 1, 5, 31, 32, 33, 63, 64, 65, 70, 127, 128, 130] {
+            if !sh.mine() {
+                continue;
+            }
+            let mut s = long_input(offset + 3, 7)[..offset].to_vec();
+            s.iter_mut().for_each(|b| {
+                if *b == b'N' {
+                    *b = b'C'
+                }
+            });
+            s.extend(std::iter::repeat(if gap % 2 == 0 { b'N' } else { b'n' }).take(gap));
+            s.extend_from_slice(b"ACGTTGCAAGCTTAGGCATCGATCGGATTACAGATTACACCAGTAGCTAACGGTCAGTCAGGTCAAACCGGTTAC");
+            for k in [1usize, 2, 3, 16, 31] {
+                c01_case(ctx, "ambiguous-run", &s, k);
+                n_long += 1;
+                ctx.rep.nontrivial += 1;
+            }
+        }
+    }
+    // lengths at round numbers (a few k only beyond 10 000 bases)
+    for (i, &len) in THRESHOLD_LENGTHS.iter().enumerate() {
+        let s = long_input(len, 40 + i as u64);
+        for k in [1usize, 2, 15, 31] {
+            if sh.mine() {
+                c01_case(ctx, "threshold-length", &s, k);
+                n_long += 1;
+                ctx.rep.nontrivial += 1;
+            }
+        }
+    }
     for s in longs {
         for k in 1..=31usize {
             if sh.mine() {
@@ -965,6 +1004,41 @@ pub fn minimiser_spaces(ctx: &mut Ctx, which: u32) {
     let mut n_long = 0u64;
     let mut longs: Vec<Vec<u8>> = [(4097usize, 1u64), (8193, 2), (20_000, 3), (70_000, 4)].iter().map(|&(len, seed)| long_input(len, seed)).collect();
     longs.push(clean_run_input());
+    for gap in [1usize, 7, 8, 9, 15, 16, 17, 31, 32, 33, 63, 64, 65, 127, 128, 129, 255, 256, 257, 300] {
+        for offset in [0usize, 1, 5, 31, 32, 33, 63, 64, 65, 70, 128] {
+            if !sh.mine() {
+                continue;
+            }
+            let mut s = long_input(offset + 3, 7)[..offset].to_vec();
+            s.iter_mut().for_each(|b| {
+                if *b == b'N' {
+                    *b = b'C'
+                }
+            });
+            s.extend(std::iter::repeat(b'N').take(gap));
+            s.extend_from_slice(b"ACGTTGCAAGCTTAGGCATCGATCGGATTACAGATTACACCAGTAGCTAACGGTCAGTCAGGTCAAACCGGTTAC");
+            for (w, m) in [(1usize, 1usize), (5, 3), (12, 7), (40, 28)] {
+                if w <= wmax {
+                    run(ctx, "ambiguous-run", &s, w, m);
+                    n_long += 1;
+                    ctx.rep.nontrivial += 1;
+                }
+            }
+        }
+    }
+    for (i, &len) in THRESHOLD_LENGTHS.iter().enumerate() {
+        let s = long_input(len, 60 + i as u64);
+        for (w, m) in [(1usize, 1usize), (5, 3), (31, 7), (40, 28)] {
+            if len > 110_000 && w > 5 {
+                continue;
+            }
+            if w <= wmax && sh.mine() {
+                run(ctx, "threshold-length", &s, w, m);
+                n_long += 1;
+                ctx.rep.nontrivial += 1;
+            }
+        }
+    }
     for s in longs {
         for (w, m) in [(1usize, 1usize), (2, 1), (3, 2), (5, 3), (8, 5), (12, 7), (16, 16), (31, 7), (31, 28), (40, 10), (91, 31), (300, 15)] {
             if w > wmax {
